@@ -66,3 +66,7 @@ WRAP void w_hsv2rgb3f (const Vec3<float>* in, Vec3<float>* out) { *out = hsv2rgb
 WRAP void w_rgb2hsv3f (const Vec3<float>* in, Vec3<float>* out) { *out = rgb2hsv (*in); }
 WRAP void w_hsv2rgb3uc (const Vec3<unsigned char>* in, Vec3<unsigned char>* out) { *out = hsv2rgb (*in); }
 WRAP void w_rgb2hsv3uc (const Vec3<unsigned char>* in, Vec3<unsigned char>* out) { *out = rgb2hsv (*in); }
+WRAP int w_norm_cubic_d (double r, double s, double t, double* x) { return solveNormalizedCubic (r, s, t, x); }
+// double-root family with exactly representable intermediate values: roots c-2b (simple) and c+b (double); r = -3c
+WRAP int w_norm_cubic_double_root_d (double b, double c, double* x)
+{ double a = c - 2 * b, d = c + b; return solveNormalizedCubic (-3 * c, d * d + 2 * a * d, -a * d * d, x); }
